@@ -229,6 +229,12 @@ func (f *Frame) callInner(in ssa.CallInstruction, res *ssa.Call) {
 	// unknown call
 	name := shortCallee(c)
 	vc.unknownCalls[name] = true
+	if c.IsInvoke() && len(args) > 0 {
+		// a method call on a nil interface value panics, whatever the method
+		if _, isLV := f.lvals[c.Value]; !isLV {
+			f.safety(f.nameCount("nil:invoke "+typeShort(c.Value.Type())+"."+c.Method.Name()), Not(S("=", S("i-tag", args[0]), "0")), "method call on nil interface", in.Pos())
+		}
+	}
 	dynBefore := ""
 	if !c.IsInvoke() && c.StaticCallee() == nil {
 		if _, isMC := c.Value.(*ssa.MakeClosure); !isMC {
